@@ -372,6 +372,10 @@ def judge_server_result(prefix, data, r, ext, stats, limits=None):
         if not ok:
             stopped = True
             break
+        if getattr(m, 'opaque_after', False):
+            stats["judged_then_opaque"] = stats.get("judged_then_opaque", 0) + 1
+            stopped = True
+            break
         if m.closes:
             optional = True
         suspect = None
